@@ -195,6 +195,13 @@ fn mkcpm(vol: Option<&String>,boot: bool,kind: &DiskKind,img: Box<dyn DiskImage>
         2 => ("",None,[2,2,3]),
         _ => panic!("unexpected CP/M version")
     };
+    match *kind {
+        names::A2_DOS33_KIND | cpm_patterns!() => {},
+        _ => {
+            error!("disk kind is not supported for CP/M");
+            return Err(Box::new(CommandError::UnsupportedItemType));
+        }
+    }
     let mut disk = cpm::Disk::from_img(img,dpb::DiskParameterBlock::create(&kind),cpm_vers)?;
     disk.format(vol_name,time)?;
     Ok(disk.get_img().to_bytes())
